@@ -88,6 +88,19 @@ Theorem C15_unpack_compositional_optional : forall E m t v,
 Proof. exact unpack_comp_optional. Qed.
 Print Assumptions C15_unpack_compositional_optional.
 
+(* decoding: mixin from_dict / nested use (Mixin) and BasicDecoder / decode() (Codec) agree on EVERY input - no
+   domain restriction: both dispatch statically; only the class of the "no union member matched" error differs
+   (InvalidFieldValue vs ValueError, [norm]), and for a dataclass shape not even that *)
+Theorem C15_unpack_agree : forall E t d,
+  run_unpack E Mixin t d = norm (run_unpack E Codec t d).
+Proof. intros E t d. exact (unpack_agree_all E d t). Qed.
+Print Assumptions C15_unpack_agree.
+
+Theorem C15_unpack_agree_data : forall E c d,
+  run_unpack E Mixin (TData c) d = run_unpack E Codec (TData c) d.
+Proof. intros E c d. exact (unpack_agree_data E d c). Qed.
+Print Assumptions C15_unpack_agree_data.
+
 (* frame: whatever classes are created (the table is extended: new names, methods gained), any
    path gives on exact values what it gave before *)
 Theorem C15_frame_partial : forall E X m dl t v,
